@@ -43,6 +43,9 @@ def main():
     rows = []
     for src, d in sorted(results.items()):
         prop, k = src.rstrip("/").split("out-")[1].split("/")
+        second_round = "/seed2/" in src
+        if second_round:
+            k = str(int(k) + 2)      # the second round of sub-agents: ids <prop>-3, <prop>-4
         sid = "%s-%s" % (prop, k)
         dst = os.path.join(SEEDED, sid)
         confirmed = bool(d.get("applies")) and d.get("suite_passes") is True and d.get("demo_fails_with_change") is True and d.get("demo_passes_without") is True
@@ -66,7 +69,7 @@ def main():
             "id": sid,
             "caught_by_its_own_property_check_in_the_first_round": own_first,
             "breaks_property": prop,
-            "origin": "independent sub-agent given only the property text and a scratch worktree",
+            "origin": "independent sub-agent given only the property text and a scratch worktree (%s round)" % ("second" if second_round else "first"),
             "what_and_what_it_needs_to_manifest": meta_txt.strip()[:2500],
             "confirmed_here": {
                 "patch_applies_to_repo_HEAD": d.get("applies"),
